@@ -655,6 +655,43 @@ fn lift_str(m: &machine::Machine, iv: &str) -> String {
     })
 }
 
+/// results fed back into the pair API: for every pair the machine returns, lift its two reference ends
+/// through it and clamp it once more to the request (which must give the same pair)
+fn thru_str(m: &machine::Machine, iv: &str) -> String {
+    with_iv(iv, |iv| {
+        match catch_unwind(AssertUnwindSafe(|| {
+            m.liftover(iv.clone()).map(|ps| {
+                ps.into_iter()
+                    .map(|p| {
+                        let a = p.liftover(p.reference().start()).map(|c| coord_str(&c)).unwrap_or("none".into());
+                        let b = p.liftover(p.reference().end()).map(|c| coord_str(&c)).unwrap_or("none".into());
+                        let again = match p.clone().clamp(iv.clone()) {
+                            Ok(p2) => pair_str(&p2),
+                            Err(e) => pair_err_str(&e).replace(' ', "_"),
+                        };
+                        format!("{} {} {} {}", pair_str(&p), a, b, again)
+                    })
+                    .collect::<Vec<_>>()
+            })
+        })) {
+            Err(_) => "panic".into(),
+            Ok(None) => "none".into(),
+            Ok(Some(items)) => format!("some {}", items.join(" | ")),
+        }
+    })
+}
+
+fn op_liftthru(src: Vec<Ev>, ivs: &str) -> String {
+    let b = build(src);
+    let mut out = vec![build_str(&b)];
+    if let Ok(m) = &b {
+        for iv in ivs.split(',') {
+            out.push(thru_str(m, iv));
+        }
+    }
+    out.join(" ; ")
+}
+
 fn op_liftover(src: Vec<Ev>, ivs: &str) -> String {
     let b = build(src);
     let mut out = vec![build_str(&b)];
@@ -793,6 +830,7 @@ fn handle(line: &str) -> String {
         },
         ["build", src] => src_of(src).map(|s| build_str(&build(s))).unwrap_or("badreq".into()),
         ["liftover", src, ivs] => src_of(src).map(|s| op_liftover(s, ivs)).unwrap_or("badreq".into()),
+        ["liftthru", src, ivs] => src_of(src).map(|s| op_liftthru(s, ivs)).unwrap_or("badreq".into()),
         ["ops", src, ops] => src_of(src).map(|s| op_ops(s, ops)).unwrap_or("badreq".into()),
         _ => "badreq".into(),
     }
